@@ -24,6 +24,8 @@ def technique(pid, s):
     parts.append("trace validation of events recorded from the real crate against spec/Trace.tla (one TLC run per shard, every event judged)")
     if any(sc.split(":")[0] in props.DISCOVER for _, sc, _ in s["scen"]):
         parts.append("inputs for those events also come from a coverage-guided fuzzer (fuzz/, libFuzzer) used as a generator only - its corpus is built by the harness and judged by TLC")
+    if any(sc.split(":")[0] in props.DIFF_SCENS for _, sc, _ in s["scen"]):
+        parts.append("inputs on which the tree under test differs from a frozen reference copy of the crate (ref/) on large joint samples are judged the same way - a difference selects an input, it is not a verdict")
     for which in s.get("apalache", []):
         parts.append("Apalache inductive invariant of spec/" + props.APALACHE[which][0] + (" for unbounded scores" if which == "MaskSelect" else " for a rendering of any length"))
     return base + "; ".join(parts)
